@@ -5,6 +5,8 @@ use constriction::{Pos, Queue, Seek, Stack};
 use serde_json::Value;
 use smallvec::SmallVec;
 
+/// positions far beyond any buffer (values that alias small positions when truncated to 8, 16 or 32 bits)
+const FAR: [usize; 8] = [1 << 8, 1 << 16, 1 << 32, (1 << 32) + 1, 1 << 40, 1 << 63, usize::MAX - 8, (1 << 33) | (1 << 17)];
 const EOF: u64 = 100; const FULL: u64 = 101; const REFUSED: u64 = 102; const OK: u64 = 103;
 type Snap = (u64, Vec<u32>, usize);     // (result, buf, pos)
 
@@ -96,6 +98,7 @@ pub fn backend_case(case: &Value, mode: &str, rep: &mut Report) {
               let mut b = mk(); let res = rd(ReadWords::<u32, Stack>::read(&mut b)); cmp!(rep, case, ty, "read (stack)", snap(res, &b), rs);
               let mut b = mk(); WriteWords::write(&mut b, 7).unwrap(); cmp!(rep, case, ty, "write(7)", snap(OK, &b), w);
               for (p, e) in seeks.iter().enumerate() { let mut b = mk(); let res = if b.seek(p).is_ok() { OK } else { REFUSED }; cmp!(rep, case, ty, format!("seek({})", p), snap(res, &b), *e); }
+              for far in FAR { let mut b = mk(); let ok = b.seek(buf.len().wrapping_add(far)).is_ok(); cmpn!(rep, case, ty, format!("seek(len + {}) accepted", far), (ok, b.clone()), (false, buf.clone())); }
               let b = mk(); cmpn!(rep, case, ty, "remaining()", BoundedReadWords::<u32, Stack>::remaining(&b), rem_s); cmpn!(rep, case, ty, "pos()", b.pos(), pos);
               cmpn!(rep, case, ty, "is_exhausted()", BoundedReadWords::<u32, Stack>::is_exhausted(&b), rem_s == 0); cmpn!(rep, case, ty, "maybe_exhausted()", ReadWords::<u32, Stack>::maybe_exhausted(&b), rem_s == 0); }
             { let ty = "SmallVec<[u32; 2]>";
@@ -116,6 +119,7 @@ pub fn backend_case(case: &Value, mode: &str, rep: &mut Report) {
                     with_b!(c, { let mut b = Reverse(c); let res = rd(ReadWords::<u32, Stack>::read(&mut b)); cmp!(rep, case, ty, "read (stack)", (res, sl(b.0.buf()), b.0.pos()), rs); });
                     with_b!(c, { let mut b = Reverse(c); let res = rd(ReadWords::<u32, Queue>::read(&mut b)); cmp!(rep, case, ty, "read (queue)", (res, sl(b.0.buf()), b.0.pos()), rq.clone().unwrap()); });
                     for (p, e) in seeks.iter().enumerate() { with_b!(c, { let mut b = Reverse(c); let res = if b.seek(p).is_ok() { OK } else { REFUSED }; cmp!(rep, case, ty, format!("seek({})", p), (res, sl(b.0.buf()), b.0.pos()), *e); }); }
+                    for far in FAR { with_b!(c, { let mut b = Reverse(c); let ok = b.seek(buf.len().wrapping_add(far)).is_ok(); cmpn!(rep, case, ty, format!("seek(len + {}) accepted", far), (ok, b.0.pos()), (false, pos)); }); }
                     with_b!(c, { let b = Reverse(c); cmpn!(rep, case, ty, "remaining() (stack)", BoundedReadWords::<u32, Stack>::remaining(&b), rem_s); cmpn!(rep, case, ty, "remaining() (queue)", BoundedReadWords::<u32, Queue>::remaining(&b), rem_q); cmpn!(rep, case, ty, "pos()", b.pos(), pos);
                         cmpn!(rep, case, ty, "is_exhausted() (stack)", BoundedReadWords::<u32, Stack>::is_exhausted(&b), rem_s == 0); cmpn!(rep, case, ty, "is_exhausted() (queue)", BoundedReadWords::<u32, Queue>::is_exhausted(&b), rem_q == 0);
                         cmpn!(rep, case, ty, "maybe_exhausted() (stack)", ReadWords::<u32, Stack>::maybe_exhausted(&b), rem_s == 0); cmpn!(rep, case, ty, "maybe_exhausted() (queue)", ReadWords::<u32, Queue>::maybe_exhausted(&b), rem_q == 0); });
@@ -123,6 +127,7 @@ pub fn backend_case(case: &Value, mode: &str, rep: &mut Report) {
                     with_b!(b, { let res = rd(ReadWords::<u32, Stack>::read(&mut b)); cmp!(rep, case, ty, "read (stack)", (res, sl(b.buf()), b.pos()), rs); });
                     with_b!(b, { let res = rd(ReadWords::<u32, Queue>::read(&mut b)); cmp!(rep, case, ty, "read (queue)", (res, sl(b.buf()), b.pos()), rq.clone().unwrap()); });
                     for (p, e) in seeks.iter().enumerate() { with_b!(b, { let res = if b.seek(p).is_ok() { OK } else { REFUSED }; cmp!(rep, case, ty, format!("seek({})", p), (res, sl(b.buf()), b.pos()), *e); }); }
+                    for far in FAR { with_b!(b, { let ok = b.seek(buf.len().wrapping_add(far)).is_ok(); cmpn!(rep, case, ty, format!("seek(len + {}) accepted", far), (ok, b.pos()), (false, pos)); }); }
                     with_b!(b, { cmpn!(rep, case, ty, "remaining() (stack)", BoundedReadWords::<u32, Stack>::remaining(&b), rem_s); cmpn!(rep, case, ty, "remaining() (queue)", BoundedReadWords::<u32, Queue>::remaining(&b), rem_q); cmpn!(rep, case, ty, "pos()", b.pos(), pos);
                         cmpn!(rep, case, ty, "is_exhausted() (stack)", BoundedReadWords::<u32, Stack>::is_exhausted(&b), rem_s == 0); cmpn!(rep, case, ty, "is_exhausted() (queue)", BoundedReadWords::<u32, Queue>::is_exhausted(&b), rem_q == 0);
                         cmpn!(rep, case, ty, "maybe_exhausted() (stack)", ReadWords::<u32, Stack>::maybe_exhausted(&b), rem_s == 0); cmpn!(rep, case, ty, "maybe_exhausted() (queue)", ReadWords::<u32, Queue>::maybe_exhausted(&b), rem_q == 0);
